@@ -381,6 +381,19 @@ Proof. unfold run_history. induction h as [|q h IH]; [reflexivity|]. cbn [fold_l
 Theorem ask_after_history L h q :
   fst (ask nb cs (run_history nb cs (fresh L) h) q) = fst (ask nb cs (fresh L) q).
 Proof. rewrite history_state. reflexivity. Qed.
+(* rejected calls are no-ops on the engine: any mix of answered and rejected questions leaves it bound
+   to the model it was created on, so the next answer is the fresh engine's *)
+Lemma ask_e_restores m q : snd (ask_e nb cs m q) = m.
+Proof. unfold ask_e. destruct (q_valid nb cs m q); reflexivity. Qed.
+Theorem history_e_state m h : run_history_e nb cs m h = m.
+Proof. unfold run_history_e. induction h as [|q h IH]; [reflexivity|]. cbn [fold_left]. rewrite ask_e_restores. exact IH. Qed.
+Theorem ask_e_after_history L h q :
+  fst (ask_e nb cs (run_history_e nb cs (fresh L) h) q) = fst (ask_e nb cs (fresh L) q).
+Proof. rewrite history_e_state. reflexivity. Qed.
+(* a rejected call gives no answer, an accepted one gives exactly [ask]'s *)
+Lemma ask_e_answer m q :
+  fst (ask_e nb cs m q) = if q_valid nb cs m q then Some (fst (ask nb cs m q)) else None.
+Proof. unfold ask_e. destruct (q_valid nb cs m q); reflexivity. Qed.
 (* ... and for questions about listed variables the elimination orders of the two engines are free *)
 Theorem ask_after_history_any_order L h (bp : bool) Q ev o_f o_h :
   base_ok L -> ev_ok card ev ->
